@@ -79,9 +79,12 @@ structure Inv (s : St) : Prop where
   /-- a tree version a reader holds, with no `fClear` since it was taken, lacks of the flushed
       tables at most the one that is still `imm` -/
   tr : ∀ p ∈ s.trees, p.2.2 = true → ∀ t ∈ s.flushed, t ∈ p.2.1 ∨ s.imm = some t
+  /-- a write of which an entry stands in a table has begun to insert (so a write that has
+      inserted nothing — one that fails — has no entry anywhere) -/
+  started : ∀ te ∈ s.ents, ∀ w ∈ s.writers, w.seq = te.2.seq → w.todo.length < w.batch.length
 
 theorem inv_init (c : Bool) (seq mem : Nat) : Inv (init c seq mem) := by
-  refine ⟨Nat.le_refl _, ?_, ?_, ?_, ?_, ?_, ?_, ?_, ?_, ?_, ?_, ?_, ?_, ?_, ?_⟩ <;> simp [init]
+  refine ⟨Nat.le_refl _, ?_, ?_, ?_, ?_, ?_, ?_, ?_, ?_, ?_, ?_, ?_, ?_, ?_, ?_, ?_⟩ <;> simp [init]
 
 theorem fm_cons_f (m : Nat) (tl : List Ticket) :
     (Ticket.f m :: tl).filterMap Ticket.wseq? = tl.filterMap Ticket.wseq? := by
@@ -110,7 +113,7 @@ theorem inv_wLog {s s' : St} (h : Inv s) (seq : Nat) (hs : step s (.wLog seq) = 
   · split at hs
     · cases hs
       exact ⟨h.vis_le, h.wbound, h.wuniq, h.placed, h.todo_sub, h.done, h.fin_vis, h.qsorted, h.qbound, h.qall,
-        h.tbl_live, h.inst, h.rd, h.from_batch, h.tr⟩
+        h.tbl_live, h.inst, h.rd, h.from_batch, h.tr, h.started⟩
     · cases hs
   · cases hs
 
@@ -125,7 +128,7 @@ theorem inv_fHead {s s' : St} (h : Inv s) (m : Nat) (hs : step s (.fHead m) = so
       | nil => rw [hql] at hq; cases hq
       | cons a tl => rw [hql] at hq; simp at hq; exact ⟨tl, by rw [hq]⟩
     refine ⟨h.vis_le, h.wbound, h.wuniq, h.placed, h.todo_sub, h.done, h.fin_vis, ?_, ?_, ?_,
-      h.tbl_live, h.inst, h.rd, h.from_batch, h.tr⟩
+      h.tbl_live, h.inst, h.rd, h.from_batch, h.tr, h.started⟩
     · have := h.qsorted
       rw [htl, fm_cons_f] at this
       simpa [htl] using this
@@ -146,7 +149,7 @@ theorem inv_fInstall {s s' : St} (h : Inv s) (o vid : Nat) (hs : step s (.fInsta
   · rename_i hc
     cases hs
     refine ⟨h.vis_le, h.wbound, h.wuniq, h.placed, h.todo_sub, h.done, h.fin_vis, h.qsorted, h.qbound, h.qall,
-      ?_, ?_, h.rd, h.from_batch, ?_⟩
+      ?_, ?_, h.rd, h.from_batch, ?_, h.started⟩
     · intro w hw
       have := h.tbl_live w hw
       simp only [liveTables, List.mem_cons, List.mem_append] at this ⊢
@@ -170,7 +173,7 @@ theorem inv_fClear {s s' : St} (h : Inv s) (o : Nat) (hs : step s (.fClear o) = 
   · rename_i hc
     cases hs
     refine ⟨h.vis_le, h.wbound, h.wuniq, h.placed, h.todo_sub, h.done, h.fin_vis, h.qsorted, h.qbound, h.qall,
-      ?_, ?_, h.rd, h.from_batch, ?_⟩
+      ?_, ?_, h.rd, h.from_batch, ?_, h.started⟩
     · intro w hw
       have := h.tbl_live w hw
       obtain ⟨t, ht, htf⟩ := h.inst hc.2
@@ -191,7 +194,7 @@ theorem inv_tInstall {s s' : St} (h : Inv s) (vid : Nat) (hs : step s (.tInstall
   split at hs
   · cases hs
     exact ⟨h.vis_le, h.wbound, h.wuniq, h.placed, h.todo_sub, h.done, h.fin_vis, h.qsorted, h.qbound, h.qall,
-      h.tbl_live, h.inst, h.rd, h.from_batch, h.tr⟩
+      h.tbl_live, h.inst, h.rd, h.from_batch, h.tr, h.started⟩
   · cases hs
 
 theorem inv_rTree {s s' : St} (h : Inv s) (rid vid : Nat) (hs : step s (.rTree rid vid) = some s') : Inv s' := by
@@ -199,7 +202,7 @@ theorem inv_rTree {s s' : St} (h : Inv s) (rid vid : Nat) (hs : step s (.rTree r
   split at hs
   · cases hs
     refine ⟨h.vis_le, h.wbound, h.wuniq, h.placed, h.todo_sub, h.done, h.fin_vis, h.qsorted, h.qbound, h.qall,
-      h.tbl_live, h.inst, h.rd, h.from_batch, ?_⟩
+      h.tbl_live, h.inst, h.rd, h.from_batch, ?_, h.started⟩
     intro p hp hcl t ht
     have hp' : p ∈ (rid, (s.flushed, true)) :: s.trees.filter (fun p => p.1 ≠ rid) := hp
     simp only [List.mem_cons] at hp'
@@ -218,7 +221,7 @@ theorem inv_rSnap {s s' : St} (h : Inv s) (rid ts mem : Nat) (imm : Bool)
     · rename_i hc
       cases hs
       refine ⟨h.vis_le, h.wbound, h.wuniq, h.placed, h.todo_sub, h.done, h.fin_vis, h.qsorted, h.qbound, h.qall,
-        h.tbl_live, h.inst, ?_, h.from_batch, ?_⟩
+        h.tbl_live, h.inst, ?_, h.from_batch, ?_, h.started⟩
       · intro r hr
         simp only [List.mem_cons] at hr
         rcases hr with rfl | hr
@@ -255,7 +258,7 @@ theorem inv_fRotate {s s' : St} (h : Inv s) (n o : Nat) (hs : step s (.fRotate n
   · rename_i hc
     cases hs
     obtain ⟨himm, _, _⟩ := hc
-    refine ⟨?_, ?_, h.wuniq, h.placed, h.todo_sub, h.done, h.fin_vis, ?_, ?_, ?_, ?_, ?_, ?_, h.from_batch, ?_⟩
+    refine ⟨?_, ?_, h.wuniq, h.placed, h.todo_sub, h.done, h.fin_vis, ?_, ?_, ?_, ?_, ?_, ?_, h.from_batch, ?_, h.started⟩
     · show s.visible ≤ s.seqNo + 1
       have := h.vis_le; omega
     · intro w hw
@@ -299,7 +302,7 @@ theorem inv_wBegin {s s' : St} (h : Inv s) (seq tbl : Nat) (batch : List (Nat ×
     cases hs
     obtain ⟨hseq, htbl⟩ := hc
     have hvis := h.vis_le
-    refine ⟨?_, ?_, ?_, ?_, ?_, ?_, ?_, ?_, ?_, ?_, ?_, h.inst, ?_, ?_, h.tr⟩
+    refine ⟨?_, ?_, ?_, ?_, ?_, ?_, ?_, ?_, ?_, ?_, ?_, h.inst, ?_, ?_, h.tr, ?_⟩
     · show s.visible ≤ seq
       omega
     · intro w hw
@@ -389,6 +392,16 @@ theorem inv_wBegin {s s' : St} (h : Inv s) (seq tbl : Nat) (batch : List (Nat ×
     · intro te hte
       obtain ⟨w, hw, h1⟩ := h.from_batch te hte
       exact ⟨w, List.mem_append_left _ hw, h1⟩
+    · intro te hte w hw hsq
+      have hw' : w ∈ s.writers ++ [(⟨seq, tbl, batch, false, batch⟩ : Writer)] := hw
+      rw [List.mem_append] at hw'
+      rcases hw' with h1 | h1
+      · exact h.started te hte w h1 hsq
+      · simp at h1; subst h1
+        obtain ⟨w', hw', h2, _⟩ := h.from_batch te hte
+        have := h.wbound w' hw'
+        simp only at hsq
+        omega
   · cases hs
 
 theorem inv_wIns {s s' : St} (h : Inv s) (seq idx : Nat) (hs : step s (.wIns seq idx) = some s') : Inv s' := by
@@ -401,11 +414,11 @@ theorem inv_wIns {s s' : St} (h : Inv s) (seq idx : Nat) (hs : step s (.wIns seq
       split at hs
       · rename_i hc
         cases hs
-        obtain ⟨hunf, _, _⟩ := hc
+        obtain ⟨hunf, _, hidx⟩ := hc
         have honly : ∀ w ∈ s.writers, w.seq = seq → w = w0 :=
           fun w hw hsq => uniq_seq s.writers h.wuniq w hw w0 hw0 (by rw [hsq, hseq0])
         have hsq : ∀ w : Writer, ({ w with todo := rest } : Writer).seq = w.seq := fun _ => rfl
-        refine ⟨h.vis_le, ?_, ?_, ?_, ?_, ?_, ?_, h.qsorted, h.qbound, ?_, ?_, h.inst, ?_, ?_, h.tr⟩
+        refine ⟨h.vis_le, ?_, ?_, ?_, ?_, ?_, ?_, h.qsorted, h.qbound, ?_, ?_, h.inst, ?_, ?_, h.tr, ?_⟩
         · intro x hx
           obtain ⟨w, hw, rfl⟩ := mem_updWriter hx
           split <;> exact h.wbound w hw
@@ -486,6 +499,21 @@ theorem inv_wIns {s s' : St} (h : Inv s) (seq idx : Nat) (hs : step s (.wIns seq
             split
             · exact ⟨h1, h2, h3⟩
             · exact ⟨h1, h2, h3⟩
+        · intro te hte x hx hsq
+          obtain ⟨w, hw, rfl⟩ := mem_updWriter hx
+          have hte' : te ∈ (w0.tbl, (⟨k, seq, v⟩ : Entry)) :: s.ents := hte
+          by_cases hws : w.seq = seq
+          · have hwe := honly w hw hws
+            subst hwe
+            simp only [hws, if_true] at hsq ⊢
+            show rest.length < w.batch.length
+            have : w.todo.length = rest.length + 1 := by rw [htodo]; rfl
+            omega
+          · simp only [hws, if_false] at hsq ⊢
+            simp only [List.mem_cons] at hte'
+            rcases hte' with rfl | hte'
+            · exact absurd hsq hws
+            · exact h.started te hte' w hw hsq
       · cases hs
     · cases hs
   · cases hs
@@ -522,7 +550,7 @@ theorem inv_wFin {s s' : St} (h : Inv s) (seq : Nat) (hs : step s (.wFin seq) = 
         · have hs := h.qsorted
           rw [htl, fm_cons_w, List.pairwise_cons] at hs
           exact ⟨hs.1 _ (List.mem_filterMap.mpr ⟨_, h1, rfl⟩), h1⟩
-      refine ⟨?_, ?_, ?_, ?_, ?_, ?_, ?_, ?_, ?_, ?_, ?_, h.inst, ?_, ?_, h.tr⟩
+      refine ⟨?_, ?_, ?_, ?_, ?_, ?_, ?_, ?_, ?_, ?_, ?_, h.inst, ?_, ?_, h.tr, ?_⟩
       · show seq ≤ s.seqNo
         have := h.wbound w0 hw0; omega
       · intro x hx
@@ -611,6 +639,65 @@ theorem inv_wFin {s s' : St} (h : Inv s) (seq : Nat) (hs : step s (.wFin seq) = 
         split
         · exact ⟨h1, h2, h3⟩
         · exact ⟨h1, h2, h3⟩
+      · intro te hte x hx hsq
+        obtain ⟨w, hw, rfl⟩ := mem_updWriter hx
+        by_cases hws : w.seq = seq
+        · simp only [hws, if_true] at hsq ⊢
+          exact h.started te hte w hw (by rw [hws]; exact hsq)
+        · simp only [hws, if_false] at hsq ⊢
+          exact h.started te hte w hw hsq
+    · cases hs
+  · cases hs
+
+/-- a write that fails: the writer is forgotten and its ticket leaves the list, wherever it stood;
+    nothing else moves (in particular not `visible`) -/
+theorem inv_wFail {s s' : St} (h : Inv s) (seq : Nat) (hs : step s (.wFail seq) = some s') : Inv s' := by
+  simp only [step] at hs
+  split at hs
+  · rename_i w0 hfind
+    obtain ⟨hw0, hseq0⟩ := findWriter_some hfind
+    split at hs
+    · rename_i hc
+      cases hs
+      obtain ⟨_, htodo, _⟩ := hc
+      have sub : ∀ w, w ∈ s.writers.filter (fun w => decide (w.seq ≠ seq)) → w ∈ s.writers ∧ w.seq ≠ seq := by
+        intro w hw
+        have := List.mem_filter.mp hw
+        exact ⟨this.1, by simpa using this.2⟩
+      have qsub : ∀ t, t ∈ s.queue.filter (fun t => decide (t ≠ Ticket.w seq)) → t ∈ s.queue ∧ t ≠ Ticket.w seq := by
+        intro t ht
+        have := List.mem_filter.mp ht
+        exact ⟨this.1, by simpa using this.2⟩
+      refine ⟨h.vis_le, ?_, ?_, ?_, ?_, ?_, ?_, ?_, ?_, ?_, ?_, h.inst, ?_, ?_, h.tr, ?_⟩
+      · intro w hw; exact h.wbound w (sub w hw).1
+      · exact List.Nodup.sublist (List.Sublist.map _ (List.filter_sublist)) h.wuniq
+      · intro w hw; exact h.placed w (sub w hw).1
+      · intro w hw; exact h.todo_sub w (sub w hw).1
+      · intro w hw; exact h.done w (sub w hw).1
+      · intro w hw; exact h.fin_vis w (sub w hw).1
+      · exact List.Pairwise.sublist (List.Sublist.filterMap _ (List.filter_sublist)) h.qsorted
+      · intro q hq; exact h.qbound q (qsub _ hq).1
+      · intro w hw hf
+        obtain ⟨hw1, hne⟩ := sub w hw
+        refine List.mem_filter.mpr ⟨h.qall w hw1 hf, ?_⟩
+        simp only [decide_eq_true_eq]
+        intro heq; cases heq; exact hne rfl
+      · intro w hw; exact h.tbl_live w (sub w hw).1
+      · intro r hr
+        obtain ⟨h1, h2, h3⟩ := h.rd r hr
+        exact ⟨h1, h2, fun hcl w hw hle => h3 hcl w (sub w hw).1 hle⟩
+      · intro te hte
+        obtain ⟨w, hw, h1, h2, h3⟩ := h.from_batch te hte
+        refine ⟨w, List.mem_filter.mpr ⟨hw, ?_⟩, h1, h2, h3⟩
+        simp only [decide_eq_true_eq]
+        intro hws
+        -- the failing write has inserted nothing
+        have hwe : w = w0 := uniq_seq s.writers h.wuniq w hw w0 hw0 (by rw [hws, hseq0])
+        subst hwe
+        have := h.started te hte w hw h1
+        rw [htodo] at this
+        exact Nat.lt_irrefl _ this
+      · intro te hte w hw hsq; exact h.started te hte w (sub w hw).1 hsq
     · cases hs
   · cases hs
 
@@ -627,6 +714,7 @@ theorem inv_step {s s' : St} (h : Inv s) (ev : Ev) (hs : step s ev = some s') : 
   | tInstall vid => exact inv_tInstall h vid hs
   | rTree rid vid => exact inv_rTree h rid vid hs
   | rSnap rid ts mem imm => exact inv_rSnap h rid ts mem imm hs
+  | wFail seq => exact inv_wFail h seq hs
 
 theorem run_cons (s : St) (e : Ev) (es : List Ev) :
     run s (e :: es) = match step s e with | some s' => run s' es | none => none := rfl
@@ -760,6 +848,12 @@ theorem view_step {s s' : St} (h : Inv s) (hc : s.completed = true) (r : Nat × 
     · cases hs; rfl
     · cases hs
   | rSnap rid ts mem imm =>
+    simp only [step] at hs; split at hs
+    · split at hs
+      · cases hs; rfl
+      · cases hs
+    · cases hs
+  | wFail seq =>
     simp only [step] at hs; split at hs
     · split at hs
       · cases hs; rfl
@@ -1053,6 +1147,12 @@ theorem tree_step_keep {s s' : St} {rid : Nat} {p : Nat × (List Nat × Bool)} (
   | tInstall vid =>
     simp only [step] at hs; split at hs
     · cases hs; exact hp
+    · cases hs
+  | wFail seq =>
+    simp only [step] at hs; split at hs
+    · split at hs
+      · cases hs; exact hp
+      · cases hs
     · cases hs
 
 theorem tree_run_keep : ∀ (evs : List Ev) {s s' : St} {rid : Nat} {p : Nat × (List Nat × Bool)},
